@@ -111,7 +111,7 @@ impl FeatureFromStrFn {
                     quote! {
                         /// Parses a string `s` to return a value of this type
                         #vis fn #ident_from_str_fn(s: &str) -> ::core::option::Option<#ident_enum> {
-                            use ::core::iter::Iterator;
+                            use ::core::iter::Iterator as _;
                             use ::core::option::Option::{None, Some};
                             for (i, n) in Self::#ident_table_name.iter().enumerate() {
                                 if s == *n {
@@ -126,7 +126,7 @@ impl FeatureFromStrFn {
                     quote! {
                         /// Parses a string `s` to return a value of this type
                         #vis fn #ident_from_str_fn(s: &str) -> ::core::option::Option<#ident_enum> {
-                            use ::core::iter::Iterator;
+                            use ::core::iter::Iterator as _;
                             use ::core::option::Option::{None, Some};
                             for (e, n) in Self::#ident_table_enum.iter().zip(Self::#ident_table_name.iter()) {
                                 if s == *n {
